@@ -199,7 +199,7 @@ func genC10(repo string) (string, error) {
 		"isDownPeer", "isOfflinePeer", "IsSatisfied", "SelectStoreToAdd", "SelectStoreToFix", "SelectStoreToRemove", "SelectStoreToImprove", "getRuleFitStores",
 		"CreateAddPeerOperator", "CreateRemovePeerOperator", "CreateMovePeerOperator", "CreateReplaceLeaderPeerOperator", "CreatePromoteLearnerOperator",
 		"CreateTransferLeaderOperator", "CreateSplitRegionOperator", "allowLeader", "FitRegion", "NewLabelConstaintFilter"), Conds: true}
-	for _, fn := range []string{"Check", "fixRulePeer", "addRulePeer", "fixBetterLocation", "fixOrphanPeers", "isOfflinePeer", "strategy"} {
+	for _, fn := range []string{"Check", "fixRulePeer", "addRulePeer", "fixBetterLocation", "fixOrphanPeers", "isOfflinePeer", "strategy", "fixLooseMatchPeer"} {
 		if err := o.skeleton(ru, "RuleChecker", fn, "skel_rule_"+fn, opt3); err != nil {
 			return "", err
 		}
